@@ -227,8 +227,8 @@ Proof.
 Qed.
 
 (* ---- path independence over the table of conversion functions: BOUNDED exhaustive instance check
-   (n = 1 rank 2, n = 2 rank 1 on permuted qubits; row and column order; all 24 Pauli orderings;
-   every ordered pair and every triple of {Choi, Liouville, Pauli-Liouville, chi}) *)
+   (n = 1 rank 2: every ordered pair and every triple of {Choi, Liouville, Pauli-Liouville, chi}, all 24
+   Pauli orderings; n = 2 rank 1 on permuted qubits: every ordered pair, two orderings; row and column) *)
 Theorem path_independence_bounded : all_paths_ok = true /\ length pauli_orders = 24.
 Proof. split; [exact all_paths_ok_true|reflexivity]. Qed.
 Print Assumptions path_independence_bounded.
